@@ -483,6 +483,79 @@ pub fn mislabel_group<S: RefOps + UniSch>(rec: &mut Rec) {
     }
 }
 
+
+/// Mislabel ACROSS TRIMS: the prover's keys and the verifier's keys are two different trims of one parameter set
+/// (supported degrees sA, sB in 3..=6, one enforced bound each).  A commitment made under bound dA with the
+/// prover's key, shown to the verifier under its own bound dB != dA, must be rejected - in particular when the
+/// committed polynomial has degree dA > dB.  (Within ONE trim the shift elements of committer and verifier
+/// always agree with each other; only a second trim shows whether they are anchored at the parameters' maximum
+/// degree, as the scheme requires, or at something the trim request chose.)
+pub fn mislabel_cross_trim<S: RefOps + UniSch>(rec: &mut Rec) {
+    let dmax = 8usize;
+    let r = rho_stream::<S::F>(rec.seed, 35, 8);
+    let z = pt::<S>(rho::<S::F>(rec.seed, 7));
+    let mut cache: std::collections::BTreeMap<(usize, usize), Option<Keys<S>>> = std::collections::BTreeMap::new();
+    let mut todo = Vec::new();
+    for sa in 3..=6usize {
+        for sb in 3..=6usize {
+            for da in 1..=sa {
+                for db in 1..=sb {
+                    if da == db {
+                        continue;
+                    }
+                    for kind in ["deg1", "full"] {
+                        for h in [None, Some(1usize)] {
+                            let id = format!("{}/mislabel-cross-trim/D={}/prover=(s={},d={})/verifier=(s={},d={})/{}/h={:?}", S::NAME, dmax, sa, da, sb, db, kind, h);
+                            if rec.take(&id) {
+                                todo.push((id, sa, da, sb, db, kind, h));
+                            }
+                        }
+                    }
+                }
+            }
+        }
+    }
+    for (id, sa, da, sb, db, kind, h) in todo {
+        for (s, d) in [(sa, da), (sb, db)] {
+            if !cache.contains_key(&(s, d)) {
+                cache.insert((s, d), build_keys::<S>(&KeyCfg::uni(dmax, s, 1, Some(vec![d])), rec.seed).ok());
+            }
+        }
+        let (ka, kb) = match (cache[&(sa, da)].as_ref(), cache[&(sb, db)].as_ref()) {
+            (Some(a), Some(b)) => (a, b),
+            _ => continue,
+        };
+        rec.dim("scheme", S::NAME);
+        let coeffs: Vec<S::F> = if kind == "deg1" { r[..2].to_vec() } else { r[..=da].to_vec() };
+        let p = uni_poly::<S>(&coeffs);
+        let c = match commit_set::<S>(ka, vec![lp::<S>("p", p.clone(), Some(da), h)], rec.seed, 0) {
+            Ok(c) => c,
+            Err(_) => continue,
+        };
+        let s1 = match open_single::<S>(ka, &c, &[0], &z, 0, rec.seed, 0) {
+            Ok(s) => s,
+            Err(_) => continue,
+        };
+        rec.op(2);
+        let shown = LabeledCommitment::new("p".to_string(), c.comms[0].commitment().clone(), Some(db));
+        run_pair::<S>(rec, &id, "mislabel-cross-trim", kb, &[&shown], &z, &s1.values, &s1.proof, &|| false, &format!("commitment to a degree-{} polynomial made under bound {} with a key trimmed to degree {}, shown under bound {} to a verifier key trimmed to degree {} of the same parameters", S::degree(&p), da, sa, db, sb));
+        // the honest case across trims (same bound on both sides) must keep working: keys interoperate
+        if cache.get(&(sb, da)).map(|k| k.is_some()).unwrap_or(false) || da <= sb {
+            if !cache.contains_key(&(sb, da)) {
+                cache.insert((sb, da), build_keys::<S>(&KeyCfg::uni(dmax, sb, 1, Some(vec![da])), rec.seed).ok());
+            }
+            if let Some(kc) = cache[&(sb, da)].as_ref() {
+                let dd = check_single::<S>(kc, &[&c.comms[0]], &z, &s1.values, &s1.proof, 0, rec.seed, 0);
+                rec.count_points(1);
+                rec.class(if dd.accepted() { "cross-trim-honest-accepted" } else { "cross-trim-honest-rejected" });
+                if !dd.accepted() {
+                    rec.violation(&format!("C04/{}/check/cross-trim-honest/rejected", S::NAME), &id, format!("an honest bound-{} opening made with a key trimmed to degree {} is not accepted by a verifier key trimmed to degree {} for the same bound: {}", da, sa, sb, dd.short()));
+                }
+            }
+        }
+    }
+}
+
 pub fn run(rec: &mut Rec) {
     let dmax = if rec.thorough() { 6 } else { 4 };
     admission::<SMar>(rec, dmax);
@@ -494,6 +567,8 @@ pub fn run(rec: &mut Rec) {
     mislabel_group::<SMar>(rec);
     mislabel_group::<SSon>(rec);
     mislabel_group::<SIpa>(rec);
+    mislabel_cross_trim::<SMar>(rec);
+    mislabel_cross_trim::<SSon>(rec);
     surgery::<SMar>(rec);
     surgery::<SSon>(rec);
     surgery::<SIpa>(rec);
